@@ -9,15 +9,16 @@ def _admissible(x, lookup):
     try:
         if len(x) < 1 or len(lookup) < 1:
             return False
-        xs = [float(v) for v in x]
-        qs = [float(v) for v in lookup]
+        # compare the caller's own values (Python ints stay exact beyond 2**53, floats stay floats)
+        xs = [v.item() if hasattr(v, "item") else v for v in x]
+        qs = [v.item() if hasattr(v, "item") else v for v in lookup]
+        if any(not (a < b) for a, b in zip(xs, xs[1:])):
+            return False
+        if any(not (a <= b) for a, b in zip(qs, qs[1:])):
+            return False
+        if any(v != v for v in xs + qs):
+            return False
     except Exception:
-        return False
-    if any(not (a < b) for a, b in zip(xs, xs[1:])):
-        return False
-    if any(not (a <= b) for a, b in zip(qs, qs[1:])):
-        return False
-    if any(v != v for v in xs + qs):
         return False
     return True
 
@@ -30,7 +31,8 @@ def judge(strategy, x, lookup, fill, result, via):
         ctx.count("c10:inadmissible_call_skipped")
         return True
     ctx.monitor("search_post:" + strategy)
-    want = S.search(list(x), list(lookup), strategy, fill)
+    want = S.search([v.item() if hasattr(v, "item") else v for v in x],
+                    [v.item() if hasattr(v, "item") else v for v in lookup], strategy, fill)
     ok = isinstance(result, np.ndarray) and result.ndim == 1 and len(result) == len(lookup) \
         and result.dtype.kind == "i" and [int(v) for v in result] == want
     if not ok:
